@@ -128,6 +128,23 @@ func corpus() []rescorr.Case {
   leaf conflict { type string; }
 }
 `),
+		// an implied case takes its prefix context from the node it wraps: ext spells base as b,
+		// which base itself binds to lib (and base does not know l and ext at all)
+		mk("implied-case-of-grafted-node", "base.yang", `module base { namespace "urn:base"; prefix base; import lib { prefix b; }
+  container top { choice how { leaf plain { type string; } } leaf other { type string; } }
+  rpc op { input { choice pick { leaf one { type empty; } } } }
+}
+`, "lib.yang", `module lib { namespace "urn:lib"; prefix lib;
+  container shelf { leaf book { type string; } }
+  container top { leaf other { type string; } }
+  grouping g { leaf fromg { type string; } }
+}
+`, "ext.yang", `module ext { namespace "urn:ext"; prefix ext; import base { prefix b; } import lib { prefix l; }
+  container mine { leaf own { type string; } }
+  augment "/b:top/b:how" { leaf extra { type string; } container cextra { leaf in { type string; } } uses l:g; }
+  augment "/b:op/b:input/b:pick" { leaf two { type empty; } }
+}
+`),
 		// ---- documented limits
 		mk("limit:name-with-slash", "m.yang", `module m { namespace "urn:m"; prefix pm;
   container "a/b" { leaf x { type string; } }
